@@ -190,6 +190,23 @@ theorem magText_head (b x : Nat) (hb2 : 2 ≤ b) (hb36 : b ≤ 36) (h0 : 0 < x) 
     unfold digitChar
     split <;> omega
 
+/-- `parse_int` without a base argument reads decimal text back: `"0"` goes through the octal
+    branch, every other decimal text starts with `-` or a non-zero digit. -/
+theorem parseInt_auto_signedText (i : Int) (hi : inI64 i = true) :
+    parseInt (.bytes (signedText 10 i)) none = .ok (.int i) := by
+  have h := fromStrRadix_signedText i 10 (by omega) (by omega) hi
+  have hi' := (inI64_iff i).mp hi
+  by_cases hneg : i < 0
+  · have ht : signedText 10 i = 45 :: magText 10 (-i).toNat := by simp [signedText, hneg]
+    rw [ht] at h ⊢
+    simp [parseInt, h, optToRes, Res.map]
+  · by_cases h0 : i = 0
+    · subst h0; decide
+    · have ht : signedText 10 i = magText 10 i.toNat := by simp [signedText, hneg]
+      obtain ⟨c, t, hm, hc⟩ := magText_head 10 i.toNat (by omega) (by omega) (by omega) (by omega)
+      rw [ht, hm] at h ⊢
+      simp [parseInt, hc, h, optToRes, Res.map]
+
 theorem magText_ascii (b x : Nat) (hb : 0 < b) (hb36 : b ≤ 36) : ∀ c ∈ magText b x, c < 128 := by
   intro c hc
   simp only [magText, List.mem_reverse, List.mem_map] at hc
